@@ -232,6 +232,30 @@ Section Machine.
   Definition run_plain (ops : list op) : list out := map plain_step ops.
 End Machine.
 
+Definition outs (l : list (out * bool * nat)) : list out := map (fun x => fst (fst x)) l.
+
+(* ---- a membership that grows while the cache lives ----
+   RuntimeConfig.AddReplica can add replicas after the Authority (and its Cache) was created;
+   the scheme's answers then change (a signer that was unknown becomes known) while the cache
+   keeps its entries.  An epoch = the scheme as it answers between two configuration changes. *)
+Record scheme := {
+  sv : qsig -> bytes -> verdict;
+  sb : qsig -> batch -> verdict;
+  sc : list qsig -> option qsig }.
+
+Fixpoint run_epochs (kd : keyderiv) (c : lru) (es : list (scheme * list op)) : list out :=
+  match es with
+  | [] => []
+  | (Sc, ops) :: r =>
+      outs (run_cached (sv Sc) (sb Sc) (sc Sc) kd c ops)
+      ++ run_epochs kd (final_cache (sv Sc) (sb Sc) (sc Sc) kd c ops) r
+  end.
+Fixpoint run_plain_epochs (es : list (scheme * list op)) : list out :=
+  match es with
+  | [] => []
+  | (Sc, ops) :: r => run_plain (sv Sc) (sb Sc) (sc Sc) ops ++ run_plain_epochs r
+  end.
+
 (* an injective, fixed-length stand-in for SHA-256 used only to *run* the model in the kernel:
    one plus the Goedel number of the message (x :: r |-> 2^x * (2 * code r + 1)), then 31 zeros.
    It is injective on all lists (SigCacheProofs.sha_toy_inj) and never the all-zero string. *)
